@@ -102,10 +102,11 @@ pub proof fn lemma_listed_full(refs: Seq<&&il::Scalar>, set: Set<&il::Scalar>, b
 }
 
 /// a complete, duplicate-free listing of the blocks: "some listed block with index k writes s" is "block k of cfg writes s"
-pub proof fn lemma_prefix_full(cfg: il::ControlFlowGraph, bs: Seq<&il::Block>)
+pub proof fn lemma_prefix_full(cfg: il::ControlFlowGraph, bs: Seq<&il::Block>, n: int)
     requires cfg.graph.lists_vertices(bs, |k: usize| true),
-    ensures forall|s: il::Scalar, k: usize| #![trigger mutated_at(cfg, s, k)] mutated_in_prefix(bs, bs.len() as int, s, k) <==> mutated_at(cfg, s, k),
+    ensures n == bs.len() ==> forall|s: il::Scalar, k: usize| #![trigger mutated_at(cfg, s, k)] mutated_in_prefix(bs, n, s, k) <==> mutated_at(cfg, s, k),
 {
+    if n != bs.len() { return; }
     assert forall|s: il::Scalar, k: usize| #![trigger mutated_at(cfg, s, k)] mutated_in_prefix(bs, bs.len() as int, s, k) <==> mutated_at(cfg, s, k) by {
         if mutated_in_prefix(bs, bs.len() as int, s, k) {
             let i = choose|i: int| 0 <= i < bs.len() && (#[trigger] bs[i]).index == k && block_writes(*bs[i], s);
@@ -120,31 +121,45 @@ pub proof fn lemma_prefix_full(cfg: il::ControlFlowGraph, bs: Seq<&il::Block>)
     }
 }
 
+/// the table `m` (scalar -> set of block indices) holds the pair (s, k).  A NAMED predicate on purpose: it is the trigger of
+/// every quantified statement about the table (a trigger through `m[s]@.contains(k)` directly is not matched by Verus).
+pub open spec fn records(m: Map<il::Scalar, HashSet<usize>>, s: il::Scalar, k: usize) -> bool {
+    m.contains_key(s) && m[s]@.contains(k)
+}
+
 /// what the table under construction records: the pairs of the first `n` listed blocks, plus (cur, s) for the first `j` listed scalars
 pub open spec fn table_is(m: Map<il::Scalar, HashSet<usize>>, bs: Seq<&il::Block>, n: int, cur: usize, refs: Seq<&&il::Scalar>, j: int) -> bool {
-    forall|s: il::Scalar, k: usize| #![trigger m[s]@.contains(k)] (m.contains_key(s) && m[s]@.contains(k)) <==>
+    forall|s: il::Scalar, k: usize| #![trigger records(m, s, k)] records(m, s, k) <==>
         (mutated_in_prefix(bs, n, s, k) || (k == cur && listed_before(refs, j, s)))
 }
 
-pub proof fn lemma_table_next_block(m: Map<il::Scalar, HashSet<usize>>, bs: Seq<&il::Block>, n: int, refs: Seq<&&il::Scalar>, set: Set<&il::Scalar>)
+pub proof fn lemma_table_next_block(m: Map<il::Scalar, HashSet<usize>>, bs: Seq<&il::Block>, n: int, refs: Seq<&&il::Scalar>, j: int, set: Set<&il::Scalar>)
     requires
         0 <= n < bs.len(),
         graph::seq_lists_set_ref(refs, set),
         forall|s: &il::Scalar| #![trigger set.contains(s)] set.contains(s) <==> block_writes(*bs[n], *s),
-        table_is(m, bs, n, bs[n].index, refs, refs.len() as int),
+        table_is(m, bs, n, bs[n].index, refs, j),
     ensures
-        table_is(m, bs, n + 1, 0, Seq::<&&il::Scalar>::empty(), 0),
+        j == refs.len() ==> table_is(m, bs, n + 1, 0, Seq::<&&il::Scalar>::empty(), 0),
 {
+    if j != refs.len() { return; }
     lemma_listed_full(refs, set, *bs[n]);
-    assert forall|s: il::Scalar, k: usize| #![trigger m[s]@.contains(k)] (m.contains_key(s) && m[s]@.contains(k)) <==> mutated_in_prefix(bs, n + 1, s, k) by {
-        if mutated_in_prefix(bs, n + 1, s, k) && !mutated_in_prefix(bs, n, s, k) {
-            let i = choose|i: int| 0 <= i < n + 1 && i < bs.len() && (#[trigger] bs[i]).index == k && block_writes(*bs[i], s);
-            assert(i == n);
-        }
-        if k == bs[n].index && block_writes(*bs[n], s) { assert(bs[n].index == k && block_writes(*bs[n], s)); }
-        if mutated_in_prefix(bs, n, s, k) {
+    assert forall|s: il::Scalar, k: usize| #![trigger records(m, s, k)] records(m, s, k) <==> mutated_in_prefix(bs, n + 1, s, k) by {
+        let lhs = records(m, s, k);
+        let a = mutated_in_prefix(bs, n, s, k);
+        let w = block_writes(*bs[n], s);
+        assert(lhs <==> (a || (k == bs[n].index && listed_before(refs, j, s))));
+        assert(listed_before(refs, refs.len() as int, s) <==> w);
+        if a {
             let i = choose|i: int| 0 <= i < n && i < bs.len() && (#[trigger] bs[i]).index == k && block_writes(*bs[i], s);
-            assert(0 <= i < n + 1);
+            assert(0 <= i < n + 1 && i < bs.len() && bs[i].index == k && block_writes(*bs[i], s));
+        }
+        if k == bs[n].index && w {
+            assert(0 <= n < n + 1 && n < bs.len() && bs[n].index == k && block_writes(*bs[n], s));
+        }
+        if mutated_in_prefix(bs, n + 1, s, k) {
+            let i = choose|i: int| 0 <= i < n + 1 && i < bs.len() && (#[trigger] bs[i]).index == k && block_writes(*bs[i], s);
+            if i < n { assert(a); } else { assert(i == n); }
         }
     }
 }
@@ -156,14 +171,14 @@ pub proof fn lemma_table_next_block(m: Map<il::Scalar, HashSet<usize>>, bs: Seq<
 //@ spec
     requires cfg.graph.graph_wf(),
     ensures
-        /*@exact*/ forall|s: il::Scalar, k: usize| #![trigger r@[s]@.contains(k)] (r@.contains_key(s) && r@[s]@.contains(k)) <==> mutated_at(*cfg, s, k),
+        /*@exact*/ forall|s: il::Scalar, k: usize| #![trigger records(r@, s, k)] records(r@, s, k) <==> mutated_at(*cfg, s, k),
 //@ loop 0
     invariant
         cfg.graph.graph_wf(),
         cfg.graph.lists_vertices(vf_it.seq(), |k: usize| true),
         vf_it.seq().len() == cfg.graph.vertices@.dom().len(),
         table_is(mutated_in@, vf_it.seq(), vf_it.index@ as int, 0, Seq::<&&il::Scalar>::empty(), 0),
-        vf_it.index@ == vf_it.seq().len() ==> (forall|s: il::Scalar, k: usize| #![trigger mutated_in@[s]@.contains(k)] (mutated_in@.contains_key(s) && mutated_in@[s]@.contains(k)) <==> mutated_at(*cfg, s, k)),
+        vf_it.index@ == vf_it.seq().len() ==> (forall|s: il::Scalar, k: usize| #![trigger records(mutated_in@, s, k)] records(mutated_in@, s, k) <==> mutated_at(*cfg, s, k)),
 //@ before 0 `for block in vf_it`
     proof {
         if cfg.graph.vertices@.dom().len() == 0 {
@@ -178,7 +193,7 @@ pub proof fn lemma_table_next_block(m: Map<il::Scalar, HashSet<usize>>, bs: Seq<
         assert(*block == *vf_bs[vf_k]);
         if vf_set@.len() == 0 {
             assert forall|s: &il::Scalar| !vf_set@.contains(s) by { if vf_set@.contains(s) { vstd::set_lib::lemma_set_empty_equivalency_len(vf_set@); } }
-            lemma_table_next_block(mutated_in@, vf_bs, vf_k, Seq::<&&il::Scalar>::empty(), vf_set@);
+            lemma_table_next_block(mutated_in@, vf_bs, vf_k, Seq::<&&il::Scalar>::empty(), 0, vf_set@);
         }
     }
 //@ loop 1
@@ -193,36 +208,634 @@ pub proof fn lemma_table_next_block(m: Map<il::Scalar, HashSet<usize>>, bs: Seq<
     let ghost vf_m0 = mutated_in@;
     let ghost vf_j = vf_it2.index@ as int;
     proof { assert(**vf_it2.seq()[vf_j] == *scalar); }
+//@ before 0 `mutated_in.get_mut(scalar).unwrap().insert(block.index());`
+    let ghost vf_m1 = mutated_in@;
+    proof {
+        assert(vf_m1.contains_key(*scalar));
+        assert forall|s: il::Scalar, k: usize| #![trigger records(vf_m1, s, k)] records(vf_m1, s, k) <==> records(vf_m0, s, k) by {
+            if s != *scalar && vf_m0.contains_key(s) { assert(vf_m1[s] == vf_m0[s]); }
+        }
+    }
 //@ after 0 `mutated_in.get_mut(scalar).unwrap().insert(block.index());`
     proof {
-        let refs = vf_it2.seq();
-        assert forall|s: il::Scalar, k: usize| #![trigger mutated_in@[s]@.contains(k)] (mutated_in@.contains_key(s) && mutated_in@[s]@.contains(k)) <==>
-            (mutated_in_prefix(vf_bs, vf_k, s, k) || (k == block.index && listed_before(refs, vf_j + 1, s))) by {
+        let cur = block.index;
+        assert forall|s: il::Scalar, k: usize| #![trigger records(mutated_in@, s, k)] records(mutated_in@, s, k) <==>
+            (mutated_in_prefix(vf_bs, vf_k, s, k) || (k == cur && listed_before(vf_it2.seq(), vf_j + 1, s))) by {
+            assert(records(vf_m0, s, k) <==> (mutated_in_prefix(vf_bs, vf_k, s, k) || (k == cur && listed_before(vf_it2.seq(), vf_j, s))));
+            assert(records(vf_m1, s, k) <==> records(vf_m0, s, k));
             if s == *scalar {
-                assert(**refs[vf_j] == s);
-                if listed_before(refs, vf_j, s) {
-                    let j = choose|j: int| 0 <= j < vf_j && j < refs.len() && **(#[trigger] refs[j]) == s;
-                    assert(0 <= j < vf_j + 1);
-                }
-                if vf_m0.contains_key(s) { assert(vf_m0[s]@.contains(k) == (mutated_in_prefix(vf_bs, vf_k, s, k) || (k == block.index && listed_before(refs, vf_j, s)))); }
+                assert(records(mutated_in@, s, k) <==> (records(vf_m1, s, k) || k == cur));
+                assert(0 <= vf_j < vf_j + 1 && vf_j < vf_it2.seq().len() && **vf_it2.seq()[vf_j] == s);
+                assert(listed_before(vf_it2.seq(), vf_j + 1, s));
             } else {
-                assert(mutated_in@.contains_key(s) == vf_m0.contains_key(s));
-                if vf_m0.contains_key(s) { assert(mutated_in@[s] == vf_m0[s]); assert(vf_m0[s]@.contains(k) == mutated_in@[s]@.contains(k)); }
-                if listed_before(refs, vf_j + 1, s) {
-                    let j = choose|j: int| 0 <= j < vf_j + 1 && j < refs.len() && **(#[trigger] refs[j]) == s;
+                assert(mutated_in@.contains_key(s) == vf_m1.contains_key(s));
+                if vf_m1.contains_key(s) { assert(mutated_in@[s] == vf_m1[s]); }
+                assert(records(mutated_in@, s, k) <==> records(vf_m1, s, k));
+                if listed_before(vf_it2.seq(), vf_j + 1, s) {
+                    let j = choose|j: int| 0 <= j < vf_j + 1 && j < vf_it2.seq().len() && **(#[trigger] vf_it2.seq()[j]) == s;
                     assert(j != vf_j);
-                    assert(0 <= j < vf_j);
+                    assert(0 <= j < vf_j && j < vf_it2.seq().len() && **vf_it2.seq()[j] == s);
                 }
-                if listed_before(refs, vf_j, s) {
-                    let j = choose|j: int| 0 <= j < vf_j && j < refs.len() && **(#[trigger] refs[j]) == s;
-                    assert(0 <= j < vf_j + 1);
+                if listed_before(vf_it2.seq(), vf_j, s) {
+                    let j = choose|j: int| 0 <= j < vf_j && j < vf_it2.seq().len() && **(#[trigger] vf_it2.seq()[j]) == s;
+                    assert(0 <= j < vf_j + 1 && j < vf_it2.seq().len() && **vf_it2.seq()[j] == s);
                 }
             }
         }
-        if vf_j + 1 == refs.len() { lemma_table_next_block(mutated_in@, vf_bs, vf_k, refs, vf_set@); }
+        lemma_table_next_block(mutated_in@, vf_bs, vf_k, vf_it2.seq(), vf_j + 1, vf_set@);
     }
 //@ after 0 `mutated_in.get_mut(scalar).unwrap().insert(block.index()); }`
     proof {
-        if vf_k + 1 == vf_bs.len() { lemma_prefix_full(*cfg, vf_bs); }
+        lemma_prefix_full(*cfg, vf_bs, vf_k + 1);
+    }
+//@ end
+
+// ---------------------------------------------------------------------------------------------
+// compute_non_local_scalars
+
+/// position `i` of block `b` reads `s` and no earlier instruction of the block writes it (an upward-exposed read)
+pub open spec fn exposed_at(b: il::Block, i: int, s: il::Scalar) -> bool {
+    0 <= i < b.instructions@.len() && ins_reads(b.instructions@[i]).contains(s) && !writes_before(b, i, s)
+}
+
+/// one of the first `n` positions of `b` holds an upward-exposed read of `s`
+pub open spec fn exposed_before(b: il::Block, n: int, s: il::Scalar) -> bool {
+    exists|i: int| 0 <= i < n && #[trigger] exposed_at(b, i, s)
+}
+
+/// the guard of the edge reads `s`
+pub open spec fn edge_reads(e: il::Edge, s: il::Scalar) -> bool {
+    e.condition matches Some(c) && il::expr_scalars(c).contains(s)
+}
+
+/// `cfg` has an edge h -> t whose guard reads `s`
+pub open spec fn guard_reads(cfg: il::ControlFlowGraph, h: usize, t: usize, s: il::Scalar) -> bool {
+    cfg.has_edge(h, t) && edge_reads(cfg.edges_view()[(h, t)], s)
+}
+
+/// `s` is live on entry of ... or at the end of block `b`: read in `b` before any definition in `b`, or read by the guard of
+/// an edge leaving `b` (guards are evaluated after the block's instructions) while `b` does not define it
+pub open spec fn nl_block(cfg: il::ControlFlowGraph, b: il::Block, s: il::Scalar) -> bool {
+    exposed_before(b, b.instructions@.len() as int, s)
+    || (!block_writes(b, s) && exists|t: usize| #[trigger] guard_reads(cfg, b.index, t, s))
+}
+
+/// THE SPECIFICATION of compute_non_local_scalars (from the property: a use must name a reaching version, so every
+/// scalar that is used where no definition of the same block reaches needs phi nodes at the joins)
+pub open spec fn non_local(cfg: il::ControlFlowGraph, s: il::Scalar) -> bool {
+    exists|k: usize| cfg.has_block(k) && #[trigger] nl_block(cfg, cfg.blocks_view()[k], s)
+}
+
+pub open spec fn nl_prefix(cfg: il::ControlFlowGraph, bs: Seq<&il::Block>, n: int, s: il::Scalar) -> bool {
+    exists|i: int| 0 <= i < n && i < bs.len() && nl_block(cfg, *(#[trigger] bs[i]), s)
+}
+
+pub open spec fn ref_listed(refs: Seq<&il::Scalar>, n: int, s: il::Scalar) -> bool {
+    exists|j: int| 0 <= j < n && j < refs.len() && *(#[trigger] refs[j]) == s
+}
+
+pub open spec fn guard_listed(es: Seq<&il::Edge>, n: int, s: il::Scalar) -> bool {
+    exists|e: int| 0 <= e < n && e < es.len() && edge_reads(*(#[trigger] es[e]), s)
+}
+
+pub proof fn lemma_exposed_step(b: il::Block, i: int)
+    requires 0 <= i,
+    ensures forall|s: il::Scalar| #![trigger exposed_before(b, i + 1, s)] exposed_before(b, i + 1, s) <==> (exposed_before(b, i, s) || exposed_at(b, i, s)),
+{
+    assert forall|s: il::Scalar| #![trigger exposed_before(b, i + 1, s)] exposed_before(b, i + 1, s) <==> (exposed_before(b, i, s) || exposed_at(b, i, s)) by {
+        if exposed_before(b, i + 1, s) {
+            let j = choose|j: int| 0 <= j < i + 1 && #[trigger] exposed_at(b, j, s);
+            if j < i { assert(0 <= j < i && exposed_at(b, j, s)); }
+        }
+        if exposed_before(b, i, s) {
+            let j = choose|j: int| 0 <= j < i && #[trigger] exposed_at(b, j, s);
+            assert(0 <= j < i + 1 && exposed_at(b, j, s));
+        }
+        if exposed_at(b, i, s) { assert(0 <= i < i + 1 && exposed_at(b, i, s)); }
+    }
+}
+
+pub proof fn lemma_writes_step(b: il::Block, i: int)
+    requires 0 <= i < b.instructions@.len(),
+    ensures forall|s: il::Scalar| #![trigger writes_before(b, i + 1, s)] writes_before(b, i + 1, s) <==> (writes_before(b, i, s) || ins_writes(b.instructions@[i]).contains(s)),
+{
+    assert forall|s: il::Scalar| #![trigger writes_before(b, i + 1, s)] writes_before(b, i + 1, s) <==> (writes_before(b, i, s) || ins_writes(b.instructions@[i]).contains(s)) by {
+        if writes_before(b, i + 1, s) {
+            let j = choose|j: int| 0 <= j < i + 1 && j < b.instructions@.len() && ins_writes(#[trigger] b.instructions@[j]).contains(s);
+            if j < i { assert(0 <= j < i && j < b.instructions@.len() && ins_writes(b.instructions@[j]).contains(s)); }
+        }
+        if writes_before(b, i, s) {
+            let j = choose|j: int| 0 <= j < i && j < b.instructions@.len() && ins_writes(#[trigger] b.instructions@[j]).contains(s);
+            assert(0 <= j < i + 1 && j < b.instructions@.len() && ins_writes(b.instructions@[j]).contains(s));
+        }
+        if ins_writes(b.instructions@[i]).contains(s) { assert(0 <= i < i + 1 && i < b.instructions@.len() && ins_writes(b.instructions@[i]).contains(s)); }
+    }
+}
+
+/// a listing `refs` of the sequence `ss`: being listed is being a member
+pub proof fn lemma_ref_listed_full(refs: Seq<&il::Scalar>, ss: Seq<il::Scalar>)
+    requires il::refs_are(refs, ss),
+    ensures forall|s: il::Scalar| #![trigger ss.contains(s)] ref_listed(refs, refs.len() as int, s) <==> ss.contains(s),
+{
+    assert forall|s: il::Scalar| #![trigger ss.contains(s)] ref_listed(refs, refs.len() as int, s) <==> ss.contains(s) by {
+        if ref_listed(refs, refs.len() as int, s) {
+            let j = choose|j: int| 0 <= j < refs.len() && *(#[trigger] refs[j]) == s;
+            assert(ss[j] == s);
+        }
+        if ss.contains(s) {
+            let j = choose|j: int| 0 <= j < ss.len() && ss[j] == s;
+            assert(*refs[j] == s);
+        }
+    }
+}
+
+pub proof fn lemma_ref_listed_step(refs: Seq<&il::Scalar>, j: int)
+    requires 0 <= j < refs.len(),
+    ensures forall|s: il::Scalar| #![trigger ref_listed(refs, j + 1, s)] ref_listed(refs, j + 1, s) <==> (ref_listed(refs, j, s) || *refs[j] == s),
+{
+    assert forall|s: il::Scalar| #![trigger ref_listed(refs, j + 1, s)] ref_listed(refs, j + 1, s) <==> (ref_listed(refs, j, s) || *refs[j] == s) by {
+        if ref_listed(refs, j + 1, s) {
+            let i = choose|i: int| 0 <= i < j + 1 && i < refs.len() && *(#[trigger] refs[i]) == s;
+            if i < j { assert(0 <= i < j && i < refs.len() && *refs[i] == s); }
+        }
+        if ref_listed(refs, j, s) {
+            let i = choose|i: int| 0 <= i < j && i < refs.len() && *(#[trigger] refs[i]) == s;
+            assert(0 <= i < j + 1 && i < refs.len() && *refs[i] == s);
+        }
+        if *refs[j] == s { assert(0 <= j < j + 1 && j < refs.len() && *refs[j] == s); }
+    }
+}
+
+pub proof fn lemma_guard_listed_step(es: Seq<&il::Edge>, e: int)
+    requires 0 <= e < es.len(),
+    ensures forall|s: il::Scalar| #![trigger guard_listed(es, e + 1, s)] guard_listed(es, e + 1, s) <==> (guard_listed(es, e, s) || edge_reads(*es[e], s)),
+{
+    assert forall|s: il::Scalar| #![trigger guard_listed(es, e + 1, s)] guard_listed(es, e + 1, s) <==> (guard_listed(es, e, s) || edge_reads(*es[e], s)) by {
+        if guard_listed(es, e + 1, s) {
+            let i = choose|i: int| 0 <= i < e + 1 && i < es.len() && edge_reads(*(#[trigger] es[i]), s);
+            if i < e { assert(0 <= i < e && i < es.len() && edge_reads(*es[i], s)); }
+        }
+        if guard_listed(es, e, s) {
+            let i = choose|i: int| 0 <= i < e && i < es.len() && edge_reads(*(#[trigger] es[i]), s);
+            assert(0 <= i < e + 1 && i < es.len() && edge_reads(*es[i], s));
+        }
+        if edge_reads(*es[e], s) { assert(0 <= e < e + 1 && e < es.len() && edge_reads(*es[e], s)); }
+    }
+}
+
+/// `es` lists the edges leaving block `h`: a guard among the listed edges reads `s` iff some edge h -> t of cfg does
+pub proof fn lemma_guard_listed_full(cfg: il::ControlFlowGraph, h: usize, es: Seq<&il::Edge>)
+    requires cfg.graph.graph_wf(), cfg.graph.lists_edges(es, |k: (usize, usize)| k.0 == h),
+    ensures forall|s: il::Scalar| #![trigger guard_listed(es, es.len() as int, s)] guard_listed(es, es.len() as int, s) <==> (exists|t: usize| #[trigger] guard_reads(cfg, h, t, s)),
+{
+    let sel = |k: (usize, usize)| k.0 == h;
+    assert forall|s: il::Scalar| #![trigger guard_listed(es, es.len() as int, s)] guard_listed(es, es.len() as int, s) <==> (exists|t: usize| #[trigger] guard_reads(cfg, h, t, s)) by {
+        if guard_listed(es, es.len() as int, s) {
+            let i = choose|i: int| 0 <= i < es.len() && edge_reads(*(#[trigger] es[i]), s);
+            let k = (es[i].head_spec(), es[i].tail_spec());
+            assert(sel(k) && cfg.graph.edges@.contains_key(k) && *es[i] == cfg.graph.edges@[k]);
+            assert(guard_reads(cfg, h, k.1, s));
+        }
+        if exists|t: usize| #[trigger] guard_reads(cfg, h, t, s) {
+            let t = choose|t: usize| #[trigger] guard_reads(cfg, h, t, s);
+            assert(sel((h, t)) && cfg.graph.edges@.contains_key((h, t)));
+            let i = choose|i: int| 0 <= i < es.len() && ((#[trigger] es[i]).head_spec(), es[i].tail_spec()) == (h, t);
+            assert(*es[i] == cfg.graph.edges@[(es[i].head_spec(), es[i].tail_spec())]);
+            assert(edge_reads(*es[i], s));
+        }
+    }
+}
+
+pub proof fn lemma_nl_prefix_step(cfg: il::ControlFlowGraph, bs: Seq<&il::Block>, n: int)
+    requires 0 <= n < bs.len(),
+    ensures forall|s: il::Scalar| #![trigger nl_prefix(cfg, bs, n + 1, s)] nl_prefix(cfg, bs, n + 1, s) <==> (nl_prefix(cfg, bs, n, s) || nl_block(cfg, *bs[n], s)),
+{
+    assert forall|s: il::Scalar| #![trigger nl_prefix(cfg, bs, n + 1, s)] nl_prefix(cfg, bs, n + 1, s) <==> (nl_prefix(cfg, bs, n, s) || nl_block(cfg, *bs[n], s)) by {
+        if nl_prefix(cfg, bs, n + 1, s) {
+            let i = choose|i: int| 0 <= i < n + 1 && i < bs.len() && nl_block(cfg, *(#[trigger] bs[i]), s);
+            if i < n { assert(0 <= i < n && i < bs.len() && nl_block(cfg, *bs[i], s)); }
+        }
+        if nl_prefix(cfg, bs, n, s) {
+            let i = choose|i: int| 0 <= i < n && i < bs.len() && nl_block(cfg, *(#[trigger] bs[i]), s);
+            assert(0 <= i < n + 1 && i < bs.len() && nl_block(cfg, *bs[i], s));
+        }
+        if nl_block(cfg, *bs[n], s) { assert(0 <= n < n + 1 && n < bs.len() && nl_block(cfg, *bs[n], s)); }
+    }
+}
+
+pub proof fn lemma_nl_prefix_full(cfg: il::ControlFlowGraph, bs: Seq<&il::Block>, n: int)
+    requires cfg.graph.lists_vertices(bs, |k: usize| true),
+    ensures n == bs.len() ==> forall|s: il::Scalar| #![trigger non_local(cfg, s)] nl_prefix(cfg, bs, n, s) <==> non_local(cfg, s),
+{
+    if n != bs.len() { return; }
+    assert forall|s: il::Scalar| #![trigger non_local(cfg, s)] nl_prefix(cfg, bs, n, s) <==> non_local(cfg, s) by {
+        if nl_prefix(cfg, bs, n, s) {
+            let i = choose|i: int| 0 <= i < n && i < bs.len() && nl_block(cfg, *(#[trigger] bs[i]), s);
+            let k = bs[i].index_spec();
+            assert(cfg.graph.vertices@.contains_key(k) && *bs[i] == cfg.graph.vertices@[k]);
+            assert(cfg.has_block(k) && nl_block(cfg, cfg.blocks_view()[k], s));
+        }
+        if non_local(cfg, s) {
+            let k = choose|k: usize| cfg.has_block(k) && #[trigger] nl_block(cfg, cfg.blocks_view()[k], s);
+            let ids = |k: usize| true;
+            assert(ids(k) && cfg.graph.vertices@.contains_key(k));
+            let i = choose|i: int| 0 <= i < bs.len() && (#[trigger] bs[i]).index_spec() == k;
+            assert(*bs[i] == cfg.graph.vertices@[bs[i].index_spec()]);
+            assert(0 <= i < n && i < bs.len() && nl_block(cfg, *bs[i], s));
+        }
+    }
+}
+
+//@ fn fn compute_non_local_scalars loops=6
+//@ rewrite 1 `let mut non_locals = HashSet::new();` => `let mut non_locals: HashSet<il::Scalar> = HashSet::new();` ## R-type-annot: writes down the type rustc infers for the local (it is the function's return type); needed because the invariant mentions it before the first insert
+//@ rewrite 1 `let mut killed = HashSet::new();` => `let mut killed: HashSet<&il::Scalar> = HashSet::new();` ## R-type-annot: writes down the type rustc infers for the local (it receives the `&il::Scalar` items of `scalars_written()`)
+//@ rewrite 1 `for block in cfg.blocks() {` => `for block in vf_it0: cfg.blocks() {` ## R-ghost-iter-name: names the ghost iterator of the for loop so that invariants can mention it; no executable change
+//@ rewrite 1 `block.instructions().iter().for_each(|inst| {` => `for inst in vf_it1: block.instructions().iter() {` ## R-for-each: `ITER.for_each(|x| BODY)` is by definition `for x in ITER { BODY }` (part 1 of 2; ITER and BODY stay the original tokens)
+//@ rewrite 1 `inst.scalars_read() .unwrap_or_default() .into_iter() .filter(|scalar| !killed.contains(scalar)) .for_each(|scalar| {` => `let vf_reads = inst.scalars_read().unwrap_or_default(); for scalar in vf_it2: vf_reads { if !killed.contains(&scalar) {` ## R-filter-for-each: `V.into_iter().filter(|x| P).for_each(|x| BODY)` is by definition `for x in V { if P { BODY } }`; the filter closure receives `&x`, so its `killed.contains(scalar)` is `killed.contains(&scalar)` on the item (part 1 of 2)
+//@ rewrite 1 `non_locals.insert(scalar.clone()); });` => `non_locals.insert(scalar.clone()); } }` ## R-filter-for-each: part 2 of 2 (closes the `if` and the `for`)
+//@ rewrite 1 `inst.scalars_written() .unwrap_or_default() .into_iter() .for_each(|scalar| {` => `let vf_writes = inst.scalars_written().unwrap_or_default(); for scalar in vf_it3: vf_writes {` ## R-for-each: `V.into_iter().for_each(|x| BODY)` is by definition `for x in V { BODY }` (part 1 of 2)
+//@ rewrite 1 `killed.insert(scalar); }); });` => `killed.insert(scalar); } }` ## R-for-each: part 2 of 2 for the inner and the outer `for_each`
+//@ rewrite 1 `for edge in edges_out {` => `for edge in vf_it4: edges_out {` ## R-ghost-iter-name: names the ghost iterator of the for loop; no executable change
+//@ rewrite 1 `for scalar in condition.scalars() {` => `let vf_cs = condition.scalars(); for scalar in vf_it5: vf_cs {` ## R-let-temp: names the iterated vector and the ghost iterator; no executable change
+//@ spec
+    requires cfg.graph.graph_wf(),
+    ensures
+        /*@reads*/ forall|s: il::Scalar, k: usize| #![trigger exposed_before(cfg.blocks_view()[k], cfg.blocks_view()[k].instructions@.len() as int, s)]
+            cfg.has_block(k) && exposed_before(cfg.blocks_view()[k], cfg.blocks_view()[k].instructions@.len() as int, s) ==> r@.contains(s),
+        /*@guards*/ forall|s: il::Scalar, h: usize, t: usize| #![trigger guard_reads(*cfg, h, t, s)]
+            guard_reads(*cfg, h, t, s) && cfg.has_block(h) && !block_writes(cfg.blocks_view()[h], s) ==> r@.contains(s),
+        /*@only*/ forall|s: il::Scalar| #![trigger r@.contains(s)] r@.contains(s) ==> non_local(*cfg, s),
+//@ loop 0
+    invariant
+        cfg.graph.graph_wf(),
+        cfg.graph.lists_vertices(vf_it0.seq(), |k: usize| true),
+        vf_it0.seq().len() == cfg.graph.vertices@.dom().len(),
+        forall|s: il::Scalar| #![trigger non_locals@.contains(s)] non_locals@.contains(s) <==> nl_prefix(*cfg, vf_it0.seq(), vf_it0.index@ as int, s),
+        vf_it0.index@ == vf_it0.seq().len() ==> (forall|s: il::Scalar| #![trigger non_locals@.contains(s)] non_locals@.contains(s) <==> non_local(*cfg, s)),
+//@ before 0 `for block in vf_it0`
+    proof {
+        if cfg.graph.vertices@.dom().len() == 0 {
+            assert forall|k: usize| !cfg.graph.vertices@.contains_key(k) by { if cfg.graph.vertices@.dom().contains(k) { vstd::set_lib::lemma_set_empty_equivalency_len(cfg.graph.vertices@.dom()); } }
+        }
+    }
+//@ before 0 `let mut killed`
+    let ghost vf_k0 = vf_it0.index@ as int;
+    let ghost vf_bs = vf_it0.seq();
+    proof {
+        assert(*block == *vf_bs[vf_k0]);
+        let ids = |k: usize| true;
+        assert(ids(vf_bs[vf_k0].index_spec()) && cfg.graph.vertices@.contains_key(vf_bs[vf_k0].index_spec()) && *vf_bs[vf_k0] == cfg.graph.vertices@[vf_bs[vf_k0].index_spec()]);
+    }
+//@ loop 1
+    invariant
+        0 <= vf_k0 < vf_bs.len(),
+        *block == *vf_bs[vf_k0],
+        vf_it1.seq().len() == block.instructions@.len(),
+        forall|j: int| 0 <= j < vf_it1.seq().len() ==> *(#[trigger] vf_it1.seq()[j]) == block.instructions@[j],
+        forall|s: &il::Scalar| #![trigger killed@.contains(s)] killed@.contains(s) <==> writes_before(*block, vf_it1.index@ as int, *s),
+        forall|s: il::Scalar| #![trigger non_locals@.contains(s)] non_locals@.contains(s) <==> (nl_prefix(*cfg, vf_bs, vf_k0, s) || exposed_before(*block, vf_it1.index@ as int, s)),
+//@ before 0 `for scalar in vf_it2`
+    let ghost vf_i = vf_it1.index@ as int;
+    let ghost vf_rs = vf_reads@;
+    proof {
+        assert(*inst == block.instructions@[vf_i]);
+        assert(il::refs_are(vf_rs, ins_reads(block.instructions@[vf_i])));
+        lemma_exposed_step(*block, vf_i);
+        lemma_ref_listed_full(vf_rs, ins_reads(block.instructions@[vf_i]));
+    }
+//@ loop 2
+    invariant
+        vf_it2.seq() == vf_rs,
+        0 <= vf_i < block.instructions@.len(),
+        il::refs_are(vf_rs, ins_reads(block.instructions@[vf_i])),
+        forall|s: &il::Scalar| #![trigger killed@.contains(s)] killed@.contains(s) <==> writes_before(*block, vf_i, *s),
+        forall|s: il::Scalar| #![trigger non_locals@.contains(s)] non_locals@.contains(s) <==>
+            (nl_prefix(*cfg, vf_bs, vf_k0, s) || exposed_before(*block, vf_i, s) || (ref_listed(vf_rs, vf_it2.index@ as int, s) && !writes_before(*block, vf_i, s))),
+//@ before 0 `if !killed.contains(&scalar)`
+    proof { lemma_ref_listed_step(vf_rs, vf_it2.index@ as int); }
+//@ before 0 `let vf_writes`
+    proof {
+        assert forall|s: il::Scalar| #![trigger non_locals@.contains(s)] non_locals@.contains(s) <==> (nl_prefix(*cfg, vf_bs, vf_k0, s) || exposed_before(*block, vf_i + 1, s)) by {
+            assert(ref_listed(vf_rs, vf_rs.len() as int, s) <==> ins_reads(block.instructions@[vf_i]).contains(s));
+            assert(exposed_before(*block, vf_i + 1, s) <==> (exposed_before(*block, vf_i, s) || exposed_at(*block, vf_i, s)));
+        }
+    }
+//@ before 0 `for scalar in vf_it3`
+    let ghost vf_ws = vf_writes@;
+    proof {
+        assert(il::refs_are(vf_ws, ins_writes(block.instructions@[vf_i])));
+        lemma_writes_step(*block, vf_i);
+        lemma_ref_listed_full(vf_ws, ins_writes(block.instructions@[vf_i]));
+    }
+//@ loop 3
+    invariant
+        vf_it3.seq() == vf_ws,
+        0 <= vf_i < block.instructions@.len(),
+        forall|s: &il::Scalar| #![trigger killed@.contains(s)] killed@.contains(s) <==> (writes_before(*block, vf_i, *s) || ref_listed(vf_ws, vf_it3.index@ as int, *s)),
+        forall|s: il::Scalar| #![trigger non_locals@.contains(s)] non_locals@.contains(s) <==> (nl_prefix(*cfg, vf_bs, vf_k0, s) || exposed_before(*block, vf_i + 1, s)),
+//@ before 0 `killed.insert(scalar);`
+    proof { lemma_ref_listed_step(vf_ws, vf_it3.index@ as int); }
+//@ after 0 `killed.insert(scalar); }`
+    proof {
+        assert forall|s: &il::Scalar| #![trigger killed@.contains(s)] killed@.contains(s) <==> writes_before(*block, vf_i + 1, *s) by {
+            assert(ref_listed(vf_ws, vf_ws.len() as int, *s) <==> ins_writes(block.instructions@[vf_i]).contains(*s));
+            assert(writes_before(*block, vf_i + 1, *s) <==> (writes_before(*block, vf_i, *s) || ins_writes(block.instructions@[vf_i]).contains(*s)));
+        }
+    }
+//@ before 0 `if let Ok(edges_out)`
+    proof {
+        assert forall|s: &il::Scalar| #![trigger killed@.contains(s)] killed@.contains(s) <==> block_writes(*block, *s) by {}
+        assert forall|s: il::Scalar| #![trigger non_locals@.contains(s)] non_locals@.contains(s) <==> (nl_prefix(*cfg, vf_bs, vf_k0, s) || exposed_before(*block, block.instructions@.len() as int, s)) by {}
+        lemma_nl_prefix_step(*cfg, vf_bs, vf_k0);
+        lemma_nl_prefix_full(*cfg, vf_bs, vf_k0 + 1);
+        assert(cfg.has_block(block.index));
+    }
+//@ before 0 `for edge in vf_it4`
+    let ghost vf_es = edges_out@;
+    proof {
+        lemma_guard_listed_full(*cfg, block.index, vf_es);
+    }
+//@ loop 4
+    invariant
+        vf_it4.seq() == vf_es,
+        0 <= vf_k0 < vf_bs.len(),
+        *block == *vf_bs[vf_k0],
+        forall|s: &il::Scalar| #![trigger killed@.contains(s)] killed@.contains(s) <==> block_writes(*block, *s),
+        forall|s: il::Scalar| #![trigger non_locals@.contains(s)] non_locals@.contains(s) <==>
+            (nl_prefix(*cfg, vf_bs, vf_k0, s) || exposed_before(*block, block.instructions@.len() as int, s) || (!block_writes(*block, s) && guard_listed(vf_es, vf_it4.index@ as int, s))),
+//@ before 0 `if let Some(condition)`
+    let ghost vf_e = vf_it4.index@ as int;
+    proof {
+        assert(*edge == *vf_es[vf_e]);
+        lemma_guard_listed_step(vf_es, vf_e);
+    }
+//@ before 0 `for scalar in vf_it5`
+    let ghost vf_cr = vf_cs@;
+    proof {
+        assert(il::refs_are(vf_cr, il::expr_scalars(*condition)));
+        lemma_ref_listed_full(vf_cr, il::expr_scalars(*condition));
+        assert(edge.condition == Some(*condition));
+    }
+//@ loop 5
+    invariant
+        vf_it5.seq() == vf_cr,
+        0 <= vf_e < vf_es.len(),
+        forall|s: &il::Scalar| #![trigger killed@.contains(s)] killed@.contains(s) <==> block_writes(*block, *s),
+        forall|s: il::Scalar| #![trigger non_locals@.contains(s)] non_locals@.contains(s) <==>
+            (nl_prefix(*cfg, vf_bs, vf_k0, s) || exposed_before(*block, block.instructions@.len() as int, s)
+                || (!block_writes(*block, s) && (guard_listed(vf_es, vf_e, s) || ref_listed(vf_cr, vf_it5.index@ as int, s)))),
+//@ before 0 `if !killed.contains(&scalar) { non_locals.insert(scalar.clone()); } } }`
+    proof { lemma_ref_listed_step(vf_cr, vf_it5.index@ as int); }
+//@ before 0 `non_locals }`
+    proof {
+        assert forall|s: il::Scalar, k: usize| #![trigger exposed_before(cfg.blocks_view()[k], cfg.blocks_view()[k].instructions@.len() as int, s)]
+            cfg.has_block(k) && exposed_before(cfg.blocks_view()[k], cfg.blocks_view()[k].instructions@.len() as int, s) implies non_locals@.contains(s) by {
+            assert(nl_block(*cfg, cfg.blocks_view()[k], s));
+            assert(non_local(*cfg, s));
+        }
+        assert forall|s: il::Scalar, h: usize, t: usize| #![trigger guard_reads(*cfg, h, t, s)]
+            guard_reads(*cfg, h, t, s) && cfg.has_block(h) && !block_writes(cfg.blocks_view()[h], s) implies non_locals@.contains(s) by {
+            assert(cfg.blocks_view()[h].index_spec() == h);
+            assert(guard_reads(*cfg, cfg.blocks_view()[h].index, t, s));
+            assert(nl_block(*cfg, cfg.blocks_view()[h], s));
+            assert(non_local(*cfg, s));
+        }
+    }
+//@ end
+
+// ---------------------------------------------------------------------------------------------
+// insert_phi_nodes
+
+/// everything of the function except the blocks' phi-node lists is as before
+pub open spec fn same_frame(f0: il::Function, f1: il::Function) -> bool {
+    let c0 = f0.control_flow_graph;
+    let c1 = f1.control_flow_graph;
+    &&& f1.address == f0.address && f1.name == f0.name && f1.index == f0.index
+    &&& c1.graph.edges == c0.graph.edges && c1.graph.successors == c0.graph.successors && c1.graph.predecessors == c0.graph.predecessors
+    &&& c1.next_index == c0.next_index && c1.next_temp_index == c0.next_temp_index && c1.entry == c0.entry && c1.exit == c0.exit && c1.ssa_form == c0.ssa_form
+    &&& c1.graph.vertices@.dom() =~= c0.graph.vertices@.dom()
+}
+
+/// block b1 is block b0 with phi nodes appended: same index, same instructions at the same positions, same instruction counter
+pub open spec fn block_extends(b0: il::Block, b1: il::Block) -> bool {
+    &&& b1.index == b0.index && b1.instructions == b0.instructions && b1.next_instruction_index == b0.next_instruction_index
+    &&& b0.phi_nodes@.len() <= b1.phi_nodes@.len()
+    &&& forall|i: int| 0 <= i < b0.phi_nodes@.len() ==> #[trigger] b1.phi_nodes@[i] == b0.phi_nodes@[i]
+}
+
+/// a phi node `p` placed in block `k` of the graph `c0` by insert_phi_nodes:
+///  * exactly one incoming entry per predecessor of k (the key set of `incoming` IS the predecessor set), each naming the
+///    (still unversioned) scalar the phi node defines,
+///  * an entry incoming iff k is the entry block,
+///  * only for a scalar that is non-local and assigned somewhere.
+pub open spec fn phi_ok(c0: il::ControlFlowGraph, entry: usize, k: usize, p: il::PhiNode) -> bool {
+    &&& p.incoming@.dom() =~= c0.graph.predecessors@[k]@
+    &&& forall|q: usize| #![trigger p.incoming@[q]] p.incoming@.contains_key(q) ==> p.incoming@[q] == p.out
+    &&& p.entry == (if k == entry { Some(p.out) } else { None::<il::Scalar> })
+    &&& non_local(c0, p.out)
+    &&& exists|b: usize| #[trigger] mutated_at(c0, p.out, b)
+}
+
+/// f1 is f0 with phi nodes added, every added phi node well formed
+pub open spec fn phis_added(f0: il::Function, f1: il::Function, entry: usize) -> bool {
+    let c0 = f0.control_flow_graph;
+    let c1 = f1.control_flow_graph;
+    &&& same_frame(f0, f1)
+    &&& forall|k: usize| #![trigger c1.graph.vertices@[k]] c0.graph.vertices@.contains_key(k) ==> block_extends(c0.graph.vertices@[k], c1.graph.vertices@[k])
+    &&& forall|k: usize, i: int| #![trigger c1.graph.vertices@[k].phi_nodes@[i]] c0.graph.vertices@.contains_key(k) && c0.graph.vertices@[k].phi_nodes@.len() <= i < c1.graph.vertices@[k].phi_nodes@.len()
+            ==> phi_ok(c0, entry, k, c1.graph.vertices@[k].phi_nodes@[i])
+}
+
+/// adding phi nodes keeps the data invariant
+pub proof fn lemma_phis_added_wf(f0: il::Function, f1: il::Function, entry: usize)
+    requires f0.control_flow_graph.cfg_wf(), phis_added(f0, f1, entry),
+    ensures f1.control_flow_graph.cfg_wf(),
+{
+    let c0 = f0.control_flow_graph;
+    let c1 = f1.control_flow_graph;
+    assert forall|k: usize| #![trigger c1.graph.vertices@[k]] c1.graph.vertices@.contains_key(k) implies c1.graph.vertices@[k].block_wf() && c1.graph.vertices@[k].index == k by {
+        assert(c0.graph.vertices@.contains_key(k));
+        assert(block_extends(c0.graph.vertices@[k], c1.graph.vertices@[k]));
+        assert(c0.graph.vertices@[k].block_wf() && c0.graph.vertices@[k].index == k);
+    }
+    assert(c1.graph.vertex_wf());
+    assert(c1.graph.adj_wf());
+}
+
+/// one more phi node in block `d`
+pub proof fn lemma_phis_added_step(f0: il::Function, f1: il::Function, f2: il::Function, entry: usize, d: usize, p: il::PhiNode)
+    requires
+        phis_added(f0, f1, entry),
+        same_frame(f1, f2),
+        f1.control_flow_graph.graph.vertices@.contains_key(d),
+        f2.control_flow_graph.graph.vertices@ == f1.control_flow_graph.graph.vertices@.insert(d, f2.control_flow_graph.graph.vertices@[d]),
+        ({ let b1 = f1.control_flow_graph.graph.vertices@[d]; let b2 = f2.control_flow_graph.graph.vertices@[d];
+           b2.index == b1.index && b2.instructions == b1.instructions && b2.next_instruction_index == b1.next_instruction_index && b2.phi_nodes@ == b1.phi_nodes@.push(p) }),
+        phi_ok(f0.control_flow_graph, entry, d, p),
+    ensures
+        phis_added(f0, f2, entry),
+{
+    let c0 = f0.control_flow_graph;
+    let c1 = f1.control_flow_graph;
+    let c2 = f2.control_flow_graph;
+    assert forall|k: usize| #![trigger c2.graph.vertices@[k]] c0.graph.vertices@.contains_key(k) implies block_extends(c0.graph.vertices@[k], c2.graph.vertices@[k]) by {
+        assert(block_extends(c0.graph.vertices@[k], c1.graph.vertices@[k]));
+        if k == d {
+            let b0 = c0.graph.vertices@[k]; let b1 = c1.graph.vertices@[k]; let b2 = c2.graph.vertices@[k];
+            assert forall|i: int| 0 <= i < b0.phi_nodes@.len() implies #[trigger] b2.phi_nodes@[i] == b0.phi_nodes@[i] by { assert(b1.phi_nodes@[i] == b0.phi_nodes@[i]); }
+        } else { assert(c2.graph.vertices@[k] == c1.graph.vertices@[k]); }
+    }
+    assert forall|k: usize, i: int| #![trigger c2.graph.vertices@[k].phi_nodes@[i]] c0.graph.vertices@.contains_key(k) && c0.graph.vertices@[k].phi_nodes@.len() <= i < c2.graph.vertices@[k].phi_nodes@.len()
+        implies phi_ok(c0, entry, k, c2.graph.vertices@[k].phi_nodes@[i]) by {
+        assert(block_extends(c0.graph.vertices@[k], c1.graph.vertices@[k]));
+        if k == d {
+            let b1 = c1.graph.vertices@[k]; let b2 = c2.graph.vertices@[k];
+            if i < b1.phi_nodes@.len() { assert(b2.phi_nodes@[i] == b1.phi_nodes@[i]); assert(phi_ok(c0, entry, k, c1.graph.vertices@[k].phi_nodes@[i])); }
+            else { assert(b2.phi_nodes@[i] == p); }
+        } else {
+            assert(c2.graph.vertices@[k] == c1.graph.vertices@[k]);
+            assert(phi_ok(c0, entry, k, c1.graph.vertices@[k].phi_nodes@[i]));
+        }
+    }
+}
+
+//@ fn fn insert_phi_nodes loops=5
+//@ rewrite 1 `for (scalar, defs) in scalars_mutated_in_blocks(cfg) {` => `let vf_m = scalars_mutated_in_blocks(cfg); let vf_items = hashmap_into_items::hashmap_into_items(vf_m); for vf_item in vf_it0: vf_items { let (scalar, defs) = vf_item;` ## R-into-items: by-value iteration over a HashMap = iteration over the vector of its entries (every entry once, order unspecified) obtained through the stand-in of prelude/hashmap_into_items.rs; the tuple pattern becomes a `let`
+//@ rewrite 2 `{ continue; }` => `{ } else {` ## R-continue: `if C { continue; } REST` at the end of a loop body is `if C { } else { REST }` (part 1 of 2; Verus for-loops have no `continue`)
+//@ rewrite 1 `queue.push_back(*df_index); } } } }` => `queue.push_back(*df_index); } } } } } }` ## R-continue: part 2 of 2, closes the two else blocks (the inner REST ends with the `if !defs.contains` statement, the outer REST with the `while let` loop)
+//@ rewrite 1 `let mut queue: VecDeque<usize> = defs.iter().cloned().collect();` => `let mut queue: VecDeque<usize> = { let mut vf_q: VecDeque<usize> = VecDeque::new(); for vf_x in vf_it1: defs.iter() { vf_q.push_back(*vf_x); } vf_q };` ## R-cloned-collect: `ITER.cloned().collect::<VecDeque<_>>()` is by definition the loop pushing a copy of every item to the back
+//@ rewrite 1 `for df_index in &dominance_frontiers[&block_index] {` => `for df_index in vf_it3: &dominance_frontiers[&block_index] {` ## R-ghost-iter-name: names the ghost iterator of the for loop; no executable change
+//@ rewrite 1 `for predecessor in cfg.predecessor_indices(*df_index)? {` => `let vf_preds = cfg.predecessor_indices(*df_index)?; for predecessor in vf_it4: vf_preds {` ## R-let-temp: names the iterated vector and the ghost iterator; no executable change
+//@ spec
+    requires old(function).control_flow_graph.cfg_wf(),
+    ensures
+        /*@no_entry*/ old(function).control_flow_graph.entry is None ==> r is Err && *final(function) == *old(function),
+        /*@succeeds*/ old(function).control_flow_graph.entry is Some ==> r is Ok,
+        /*@frame*/ same_frame(*old(function), *final(function)),
+        /*@blocks*/ forall|k: usize| #![trigger final(function).control_flow_graph.graph.vertices@[k]] old(function).control_flow_graph.has_block(k)
+            ==> block_extends(old(function).control_flow_graph.graph.vertices@[k], final(function).control_flow_graph.graph.vertices@[k]),
+        /*@phi_nodes*/ old(function).control_flow_graph.entry matches Some(entry) ==> phis_added(*old(function), *final(function), entry),
+        /*@wf*/ final(function).control_flow_graph.cfg_wf(),
+//@ enter
+    let ghost f0 = *function;
+    let ghost c0 = function.control_flow_graph;
+//@ after 0 `let non_local_scalars = compute_non_local_scalars(cfg);`
+    let ghost df = dominance_frontiers@;
+    proof {
+        assert(phis_added(f0, *function, entry));
+    }
+//@ before 0 `let vf_items`
+    let ghost vf_mv = vf_m@;
+//@ before 0 `for vf_item in vf_it0`
+    let ghost vf_iv = vf_items@;
+    proof {
+        assert forall|i: int, k: usize| #![trigger vf_iv[i].1@.contains(k)] 0 <= i < vf_iv.len() && vf_iv[i].1@.contains(k) implies mutated_at(c0, vf_iv[i].0, k) by {
+            assert(vf_mv.contains_key(vf_iv[i].0) && vf_mv[vf_iv[i].0] == vf_iv[i].1);
+            assert(records(vf_mv, vf_iv[i].0, k));
+        }
+    }
+//@ loop 0
+    invariant
+        vf_it0.seq() == vf_iv,
+        f0.control_flow_graph.cfg_wf(), c0 == f0.control_flow_graph, c0.entry == Some(entry),
+        df == dominance_frontiers@,
+        df.dom() == c0.graph.vertices@.dom(),
+        forall|v: usize, x: usize| #![trigger df[v]@.contains(x)] df.contains_key(v) && df[v]@.contains(x) ==> c0.graph.vertices@.contains_key(x),
+        forall|s: il::Scalar| #![trigger non_local_scalars@.contains(s)] non_local_scalars@.contains(s) ==> non_local(c0, s),
+        forall|i: int, k: usize| #![trigger vf_iv[i].1@.contains(k)] 0 <= i < vf_iv.len() && vf_iv[i].1@.contains(k) ==> mutated_at(c0, vf_iv[i].0, k),
+        phis_added(f0, *function, entry),
+//@ before 0 `if !non_local_scalars.contains(&scalar)`
+    proof {
+        assert(vf_item == vf_iv[vf_it0.index@ as int]);
+        assert forall|k: usize| #![trigger defs@.contains(k)] defs@.contains(k) implies mutated_at(c0, scalar, k) by {
+            assert(vf_iv[vf_it0.index@ as int].1@.contains(k));
+        }
+    }
+//@ loop 1
+    invariant
+        graph::seq_lists_set_ref(vf_it1.seq(), defs@),
+        forall|i: int| 0 <= i < vf_q@.len() ==> defs@.contains(#[trigger] vf_q@[i]),
+//@ before 0 `vf_q.push_back(*vf_x);`
+    proof { graph::lemma_seq_lists_set_ref(vf_it1.seq(), defs@); }
+//@ before 0 `while let Some(block_index)`
+    proof {
+        vstd::set_lib::lemma_len_subset(phi_insertions@, c0.graph.vertices@.dom());
+        if queue@.len() > 0 { assert(defs@.contains(queue@[0])); assert(mutated_at(c0, scalar, queue@[0])); }
+    }
+//@ loop 2
+    invariant
+        f0.control_flow_graph.cfg_wf(), c0 == f0.control_flow_graph, c0.entry == Some(entry),
+        df == dominance_frontiers@,
+        df.dom() == c0.graph.vertices@.dom(),
+        forall|v: usize, x: usize| #![trigger df[v]@.contains(x)] df.contains_key(v) && df[v]@.contains(x) ==> c0.graph.vertices@.contains_key(x),
+        non_local(c0, scalar),
+        forall|k: usize| #![trigger defs@.contains(k)] defs@.contains(k) ==> mutated_at(c0, scalar, k),
+        queue@.len() > 0 ==> (exists|b: usize| #[trigger] mutated_at(c0, scalar, b)),
+        forall|i: int| 0 <= i < queue@.len() ==> c0.graph.vertices@.contains_key(#[trigger] queue@[i]),
+        phi_insertions@.subset_of(c0.graph.vertices@.dom()),
+        phi_insertions@.len() <= c0.graph.vertices@.dom().len(),
+        phis_added(f0, *function, entry),
+    decreases c0.graph.vertices@.dom().len() - phi_insertions@.len() + queue@.len(),
+//@ before 0 `for df_index in vf_it3`
+    let ghost vf_q0 = queue@;
+    let ghost vf_p0 = phi_insertions@;
+    proof {
+        assert(c0.graph.vertices@.contains_key(block_index));
+    }
+//@ loop 3
+    invariant
+        f0.control_flow_graph.cfg_wf(), c0 == f0.control_flow_graph, c0.entry == Some(entry),
+        df == dominance_frontiers@,
+        df.dom() == c0.graph.vertices@.dom(),
+        df.contains_key(block_index),
+        graph::seq_lists_set_ref(vf_it3.seq(), df[block_index]@),
+        forall|v: usize, x: usize| #![trigger df[v]@.contains(x)] df.contains_key(v) && df[v]@.contains(x) ==> c0.graph.vertices@.contains_key(x),
+        non_local(c0, scalar),
+        exists|b: usize| #[trigger] mutated_at(c0, scalar, b),
+        forall|i: int| 0 <= i < queue@.len() ==> c0.graph.vertices@.contains_key(#[trigger] queue@[i]),
+        phi_insertions@.subset_of(c0.graph.vertices@.dom()),
+        phi_insertions@.len() <= c0.graph.vertices@.dom().len(),
+        c0.graph.vertices@.dom().len() - phi_insertions@.len() + queue@.len() <= c0.graph.vertices@.dom().len() - vf_p0.len() + vf_q0.len(),
+        phis_added(f0, *function, entry),
+//@ before 0 `if phi_insertions.contains(df_index)`
+    let ghost f1 = *function;
+    proof {
+        graph::lemma_seq_lists_set_ref(vf_it3.seq(), df[block_index]@);
+        assert(df[block_index]@.contains(*df_index));
+        assert(c0.graph.vertices@.contains_key(*df_index));
+        lemma_phis_added_wf(f0, f1, entry);
+    }
+//@ before 0 `for predecessor in vf_it4`
+    let ghost vf_ps = vf_preds@;
+//@ loop 4
+    invariant
+        vf_it4.seq() == vf_ps,
+        phi_node.out == scalar && phi_node.entry is None,
+        forall|q: usize| #![trigger phi_node.incoming@[q]] phi_node.incoming@.contains_key(q) ==> phi_node.incoming@[q] == scalar,
+        forall|q: usize| #![trigger phi_node.incoming@.contains_key(q)] phi_node.incoming@.contains_key(q) <==> (exists|j: int| 0 <= j < vf_it4.index@ && #[trigger] vf_ps[j] == q),
+//@ before 0 `if *df_index == entry`
+    proof {
+        assert(phi_node.incoming@.dom() =~= c0.graph.predecessors@[*df_index]@) by {
+            assert forall|q: usize| phi_node.incoming@.dom().contains(q) <==> c0.graph.predecessors@[*df_index]@.contains(q) by {
+                if c0.graph.predecessors@[*df_index]@.contains(q) { assert(vf_ps.to_set().contains(q)); assert(vf_ps.contains(q)); }
+                if phi_node.incoming@.contains_key(q) { let j = choose|j: int| 0 <= j < vf_ps.len() && #[trigger] vf_ps[j] == q; assert(vf_ps.contains(q)); assert(vf_ps.to_set().contains(q)); }
+            }
+        }
+    }
+//@ before 0 `let cfg = function.control_flow_graph_mut();`
+    proof {
+        assert(phi_ok(c0, entry, *df_index, phi_node));
+    }
+//@ after 0 `df_block.add_phi_node(phi_node);`
+    proof {
+        lemma_phis_added_step(f0, f1, *function, entry, *df_index, phi_node);
+    }
+//@ after 0 `phi_insertions.insert(*df_index);`
+    proof {
+        vstd::set_lib::lemma_len_subset(phi_insertions@, c0.graph.vertices@.dom());
+    }
+//@ before 0 `Ok(()) }`
+    proof {
+        lemma_phis_added_wf(f0, *function, entry);
     }
 //@ end
